@@ -36,7 +36,7 @@ checks = {
  "C17": dict(engine="hdrmc", cat="model_checking", ref="DESIGN.md 3, 7 C17",
    text="all histories with mark/unmark of best-chain, side-branch, first-of-branch, unseen, unknown and already-marked hashes, followed by resubmission, competitors, Save+Load, marking between two persistence operations (Save, mark, Save+Load), and marking after the repository was pruned (Clean/Load with depth 2-3 on a grown chain: lowest retained header, already pruned header): tip = heaviest remaining (retained) accepted header, marked subtree never flagged in the best chain, verdicts per reference",
    note=A_NOTE, tech=A_TECH),
- "C18": dict(engine="hdrmc", cat="model_checking", ref="DESIGN.md 3, 7 C18",
+ "C18": dict(engine="hdrmc+powenum", cat="model_checking", ref="DESIGN.md 3, 7 C18",
    text="in every state of a reduced exploration every accepted header x every transaction position x {with header, hash only} (histories include marking headers invalid; a removed header's block is never reported on the best chain): valid proof must return the model's (height, in-best-chain); every single-element corruption (txid, each path element, index xor/shift/overflow/negative, duplicate list, path length, header, block hash, missing target) must be refused, and so must a right-path proof for every header that was submitted and refused or never submitted (with header, hash only, both)",
    note=A_NOTE + "; blocks of 1-4 transactions derived from the header label", tech=A_TECH + "; proofs built by an independent merkle implementation"),
  "C19": dict(engine="hdrmc+netmc", cat="model_checking", ref="DESIGN.md 3, 7 C19",
@@ -148,6 +148,7 @@ extra15 = {
  "C11": "; a side branch of many light headers taller than the heavier best chain by more than the restart keeps",
  "C15": "; nine well-formed messages sent twice and three times in a row in three stages (Run must return)",
  "C16": "; a source whose block arrives while the manager is inside its next call to the requestor",
+ "C18": "; proofs for blocks of the real chain (556000..557500, cleaned keeping 300) while a header is marked invalid and pruned history has been brought back from the header files: true height and best-chain flag, with header and by hash (powenum part, merged)",
  "C20": "; books of 999..2003 peers with every range query counted against the scores, before and after Save + Load",
 }
 # additions of seed round 14
